@@ -59,7 +59,13 @@ def check(toks, resp, mode, build):
         c = cmpv(x[0], x[1], y[0], y[1])
         mn, mx = (x, y) if c <= 0 else (y, x)
         want = "X V %d %d V %d %d %d %d" % (mn[0], mn[1], mx[0], mx[1], c, c)
-        return ("ok" if resp.raw == want else "viol"), "minmax", x[1] != y[1], want
+        ok = resp.raw == want
+        if not ok and c == 0:
+            # equal values: which of the two operands is returned is not fixed by the statement
+            f = resp.raw.split(" ")
+            if len(f) == 9 and f[0] == "X" and f[1] == "V" and f[4] == "V" and f[7:] == ["0", "0"]:
+                ok = (int(f[2]), int(f[3])) in (x, y) and (int(f[5]), int(f[6])) in (x, y)
+        return ("ok" if ok else "viol"), "minmax", x[1] != y[1], want
     if op in ("sort", "btree"):
         items = plist(toks[1:])
         from fractions import Fraction
